@@ -279,6 +279,14 @@ def gen_build(rng, mode):
                     extra.append(op)
         finally:
             w.close()
+    if mode == 'named' and rng.random() < 0.35:
+        # sibling instances whose names differ only in letter case (legal in the IR and in Verilog)
+        groups = [kids for kids in info['children'].values() if len(kids) >= 2]
+        if groups:
+            kids = rng.choice(groups)
+            a, b = rng.sample(kids, 2)
+            extra.append(['setname', str(a[0]), tok_of_s('sync')])
+            extra.append(['setname', str(b[0]), tok_of_s('SYNC')])
     build = {'ops': ops + extra, 'mops': []}
     # a twin: a definition with the name and the ports of an existing one, in another library
     # (so that re-pointing an instance can change only the library of its reference)
@@ -407,6 +415,12 @@ def _m_conn_outer(which):
                 if q is not ip:
                     cands.append((ki, inst, q))
         free = [c for c in cands if c[1].pins[c[2]].wire is None]
+        if which == 'inst' and rng.random() < 0.9:
+            # the hardest move to see: same pin of another instance of the SAME cell, target open
+            twins = [c for c in free if c[1].reference is inst.reference and c[2] is ip]
+            if twins:
+                k2, other, q = _pick(rng, twins)
+                return _move(rng, n, i, j, k, w, pos, _outer_addr(n, i, j, k2, other, q), other.pins[q], rng.random() < 0.7)
         steal = not free or rng.random() < 0.15
         k2, other, q = _pick(rng, cands if steal else free)
         return _move(rng, n, i, j, k, w, pos, _outer_addr(n, i, j, k2, other, q), other.pins[q], rng.random() < 0.7)
